@@ -13,4 +13,5 @@ const (
 	VerifPtGCEnd      = 8  // GC: collectDead returned, flag not yet reset
 	VerifPtStoreItem  = 9  // StoreToDisk: an item was handed to a shard writer
 	VerifPtStoreStep  = 10 // StoreToDisk: between two file-system mutations after the scan
+	VerifPtDelGot     = 11 // Delete2: between GetNode and DeleteNode
 )
